@@ -204,3 +204,40 @@ func refusedSocketLeavesNothing(c *Ctx, rule string) {
 		c.Ob(rule, "sio.Namespace.add/refused-socket-leaves-its-rooms", rm.Pos(), !skip && len(as) > 0, "after a middleware refused the socket, add returns without leaveAll(): rooms a middleware (or the restored session) joined it to stay in the adapter for ever, one set per refused attempt — SocketRooms and room broadcasts still see the sid: "+trailString(p, trail))
 	}
 }
+
+// parseErrorClosesConnection (C10-D12, shared with C06-D11): the client's parse-error path closes the Engine.IO socket (F46).
+func parseErrorClosesConnection(c *Ctx, rule string) {
+	p := c.P
+	top := p.Fn("sio", "Manager.onEIOPacket")
+	found, closes := false, false
+	for _, f := range WithAnons(top) {
+		oc := CallsTo(Calls(f), `\(\*sio\.Manager\)\.onClose`)
+		for _, o := range oc {
+			if o.Instr.Parent() != f {
+				continue
+			}
+			found = true
+			// on every path from onClose to the end of this function the connection is closed
+			skip, _ := CanReachExitAvoiding(f, o.Instr, func(in ssa.Instruction) bool {
+				call, ok := in.(ssa.CallInstruction)
+				if !ok || !call.Common().IsInvoke() || call.Common().Method.Name() != "Close" {
+					return false
+				}
+				return strings.Contains(call.Common().Value.Type().String(), "engine.io") || strings.Contains(call.Common().Value.Type().String(), "eio.")
+			})
+			// a nil test of the captured connection may skip the close: accept that one condition
+			if skip {
+				skip2, _ := PrunedCanReach(f, o.Instr, []Assume{{`\(.* != nil(:[^)]*)?\)`, true}, {`\(.* == nil(:[^)]*)?\)`, false}}, nil, func(in ssa.Instruction) bool {
+					call, ok := in.(ssa.CallInstruction)
+					return ok && call.Common().IsInvoke() && call.Common().Method.Name() == "Close"
+				})
+				skip = skip2
+			}
+			closes = !skip
+			c.Ob(rule, "sio.Manager.onEIOPacket/parse-error-closes-the-connection", o.Pos(), closes, "after onClose(ReasonParseError) the Engine.IO socket is not closed: onClose only mutes its callbacks before reconnecting, so the abandoned connection keeps answering the server's pings — the server keeps the session, its sockets and rooms for ever, one more per undecodable frame")
+		}
+	}
+	if !found {
+		c.Undecided("%s: no onClose call on the parse-error path of Manager.onEIOPacket", rule)
+	}
+}
